@@ -108,9 +108,10 @@ func (parseResult *ParseResult) TextForAttribute(attribute Attribute) string {
 	if attribute.Length == 0 {
 		return ""
 	}
-	if len(parseResult.Text) < attribute.Position+attribute.Length {
+	text := []rune(parseResult.Text)
+	if len(text) < attribute.Position+attribute.Length {
 		panic("attribute represents a range not representable by this text")
 	}
 
-	return string([]rune(parseResult.Text)[attribute.Position : attribute.Position+attribute.Length])
+	return string(text[attribute.Position : attribute.Position+attribute.Length])
 }
